@@ -197,7 +197,9 @@ class Check:
                 pass
             m = SAN_PAT.search(errtxt)
             if m:
-                kind = re.sub(r"[^A-Za-z0-9_:+-]+", "-", m.group(1))[:80]
+                kind = re.sub(r"( on (unknown )?address| at pc| in thread).*$", "", m.group(1))   # keys must not depend on addresses
+                kind = re.sub(r"0x[0-9a-f]+", "", kind)
+                kind = re.sub(r"[^A-Za-z0-9_:+-]+", "-", kind)[:80]
                 frames = re.findall(r"#\d+ 0x[0-9a-f]+ in ([^\s(]+)", errtxt)
                 libframe = next((fr for fr in frames if "gm2calc" in fr or "slha" in fr.lower()), frames[0] if frames else "?")
                 key = "%s:sanitizer:%s:%s" % (self.pid, kind, libframe[:60])
